@@ -9,16 +9,23 @@ pub struct Decoder<R> { source: R, remaining_chunks_size: Option<usize> }
 pub uninterp spec fn dec_stream<R>(d: &Decoder<R>) -> Seq<u8>;
 pub uninterp spec fn dec_failed<R>(d: &Decoder<R>) -> bool;
 pub uninterp spec fn dec_source<R>(d: &Decoder<R>) -> &R;
+pub uninterp spec fn dec_end<R>(d: &Decoder<R>) -> Seq<u8>;
 impl<R: Read> Decoder<R> {
     // ASSUMED (dependency): a fresh decoder yields exactly the chunk payloads of its source
     #[verifier::external_body]
     pub fn new(source: R) -> (r: Decoder<R>)
-        ensures *dec_source(&r) == source, dec_stream(&r) == dechunk(source.stream())
+        ensures *dec_source(&r) == source, dec_stream(&r) == dechunk(source.stream()),
+            // ASSUMED (dependency): read to end-of-stream, the decoder leaves its source right after the chunked body
+            dec_end(&r) == source.stream().skip(chunked_len(source.stream()) as int)
     { unimplemented!() }
 }
 impl<R: Read> ReadSpecImpl for Decoder<R> {
     open spec fn stream(&self) -> Seq<u8> { dec_stream(self) }
     open spec fn failed(&self) -> bool { dec_failed(self) }
+    // the decoder has no Drop: dropped as it is, its source is handed on wherever decoding stopped
+    open spec fn release(&self) -> Seq<u8> { dec_source(self).stream() }
+    open spec fn drained(&self) -> Seq<u8> { dec_end(self) }
+    open spec fn owns_source(&self) -> bool { true }
 }
 #[verifier::external]
 impl<R: Read> Read for Decoder<R> { fn read(&mut self, buf: &mut [u8]) -> std::io::Result<usize> { unimplemented!() } }
